@@ -28,6 +28,8 @@ def run(prog, chk):
     innermost_writes(prog, chk)
     parallel_assignment(prog, chk)
     lookup_order(prog, chk)
+    scope_vars_complete(prog, chk)
+    reuse_overrides_evaluated(prog, chk)
 
 
 def scope_pairing(prog, chk, rule):
@@ -248,3 +250,35 @@ def lookup_order(prog, chk):
     extra = [r for r in readers if r not in allowed and "{closure" not in r]
     extra += [r for r in readers if "{closure" in r and not r.startswith("<svgdx::context::TransformerContext as svgdx::context::VariableMap>::get_var")]
     chk.ob(not extra, "A10.vars-readers", "Scope.vars", "src/context.rs", "Scope::vars is read only by get_var", f"Scope::vars is also accessed by {extra}")
+
+
+def scope_vars_complete(prog, chk):
+    """push_element hands the element's whole attribute map to the new scope: every attribute shadows, whatever its name"""
+    b = prog.body(PUSH)
+    chk.touch(b)
+    wv = b.call_sites(R.path_endswith("Scope::with_vars"))
+    if len(wv) != 1:
+        chk.anchor_missing("A10.scope-vars", f"push_element: expected one Scope::with_vars call, found {len(wv)}")
+        return
+    bb, t, c = wv[0]
+    o = R.origin(b, t["args"][0], carriers={})
+    src = Callee(o[2]["fn"]).path if o[0] == "call" and "fn" in o[2] else None
+    chk.ob(src is not None and src.endswith("SvgElement::get_attrs"), "A10.scope-vars", "push_element:with_vars", b.where(bb, t.get("line")), "the scope of an element is created from its complete attribute map (get_attrs(), unfiltered)", f"the scope's variables do not come straight from get_attrs() (they come from {src or o[0]}): some attributes of an enclosing <g>/<reuse> no longer shadow outer values")
+
+
+def reuse_overrides_evaluated(prog, chk):
+    """the attribute values a <reuse> passes to its target are the *evaluated* ones: the map iterated in
+    ReuseElement::generate_events comes from the element that went through eval_attributes()"""
+    b = prog.body("<svgdx::reuse::ReuseElement as svgdx::transform::EventGen>::generate_events")
+    chk.touch(b)
+    evald = set()
+    for (bb, t, c) in b.call_sites(R.path_endswith("SvgElement::eval_attributes")):
+        l = R.origin_local(b, t["args"][0])
+        if l is not None:
+            evald.add(l)
+    ga = b.call_sites(R.path_endswith("SvgElement::get_attrs"))
+    chk.floor("A10.reuse-evaluated-attrs", len(ga), 1, "get_attrs() call in ReuseElement::generate_events")
+    for k, (bb, t, c) in enumerate(ga):
+        l = R.origin_local(b, t["args"][0])
+        ok = l is not None and l in evald
+        chk.ob(ok, "A10.reuse-evaluated-attrs", f"ReuseElement:get_attrs#{k + 1}", b.where(bb, t.get("line")), f"the attributes handed to the target are read from `{b.local_name(l) if l is not None else '?'}`, which was evaluated in the <reuse>'s own scope first", "the attributes handed to the target are read from an element that did not go through eval_attributes() (the raw <reuse>): their {{..}} / $var text is evaluated later, inside the target, where inner definitions capture the names")
